@@ -52,6 +52,8 @@ THEOREMS = [
     "C15_load_by_label_witness",
     "C15_item_access",
     "C15_item_via_getattr_witness",
+    "C15_replace_refused_noop",
+    "C15_replace_own_label_witness",
 ]
 RULE = (
     "seeded random editing histories of a real Workflow (add/remove/re-add/replace children of two node "
@@ -102,18 +104,19 @@ ASSUMPTIONS = [
 ]
 
 # S: a node in the `x = f(x); return x` idiom: input AND output channel are both called `x` (refs: "tag.x/out")
-KINDS = {"F": (["a", "b", "c"], ["o"]), "T": (["i", "s", "u", "b"], ["oi", "os", "ou"]), "S": (["x", "by"], ["x"])}
+KINDS = {"F": (["a", "b", "c"], ["o"]), "T": (["i", "s", "u", "b"], ["oi", "os", "ou"]), "S": (["x", "by"], ["x"]),
+         "G": (["a", "b", "c", "d"], ["o"])}  # G: F plus one input, the "upgrade" a replace_child swaps in
 HINTS = {"i": "int", "s": "str", "b": "bool"}  # inputs of kind T only
 PYHINT = {"int": int, "str": str, "bool": bool}
 DEFAULTS = {"F": {"a": "d", "b": "d", "c": "d"}, "T": {"i": 0, "s": "x", "u": None, "b": True},
-            "S": {"x": "d", "by": "d"}}
+            "S": {"x": "d", "by": "d"}, "G": {"a": "d", "b": "d", "c": "d", "d": "d"}}
 # plain names that are attributes / methods of the Inputs / Outputs panel classes
 PANEL_ATTRS = ["items", "labels", "fetch", "ready", "connected", "connections"]
 LABELS = ["n0", "n1", "n2", "n3"]
 SIDES = {"in": 0, "out": 1}
 ATTR = {"in": "inputs_map", "out": "outputs_map"}
 # canonical keys that may name a channel now or only later (or never: T-only labels on an F node)
-FUTURE = {"in": [f"{lab}__{c}" for lab in LABELS for c in ("a", "b", "c", "i", "u")],
+FUTURE = {"in": [f"{lab}__{c}" for lab in LABELS for c in ("a", "b", "c", "d", "i", "u")],
           "out": [f"{lab}__{c}" for lab in LABELS for c in ("o", "oi", "ou")]}
 
 
@@ -129,7 +132,7 @@ def _static(case):
     inst = {}
     nxt = 0
     for op in case["ops"]:
-        if op[0] in ("add", "ext", "replace", "load"):
+        if op[0] in ("add", "ext", "replace", "load", "construct"):
             kind, tag = (op[1], op[3]) if op[0] not in ("replace", "load") else (op[2], op[3])
             if tag in inst:
                 continue
@@ -155,6 +158,12 @@ def _ref(inst, ref):
         if l == lab and want in ("", side):
             return cid, side
     return None
+
+
+def _superset(old_kind, new_kind):
+    """the replacement has at least the channels of the node it replaces"""
+    return old_kind in KINDS and set(KINDS[old_kind][0]) <= set(KINDS[new_kind][0]) \
+        and set(KINDS[old_kind][1]) <= set(KINDS[new_kind][1])
 
 
 def _mkref(inst, tag, lab, side):
@@ -736,7 +745,7 @@ def _random_case(rng, tier):
                 up = [t for t in ct if sim.inst[t]["kind"] == "F"]
                 ops.append(["pull", tag, rng.choice(["pull", "call"]),
                             rng.choice(up) if up and rng.random() < 0.5 else None])
-        elif r < 0.985:
+        elif r < 0.975:
             # re-labelling a held child through the workflow, by every route, valid or not
             if sim.children:
                 label, tag = rng.choice(sim.children)
@@ -749,16 +758,47 @@ def _random_case(rng, tier):
                 if isinstance(new, str) and "/" not in new and new not in RESERVED and new not in others and new != label:
                     sim.children = [(l, t) for l, t in sim.children if t != tag] + [(new, tag)]
                     sim.label[tag] = new
+        elif r < 0.988:
+            # a node constructed STRAIGHT INTO the workflow (parent=wf), an earlier keyword wiring it to a sibling;
+            # sometimes a later keyword is refused (ill-typed) or the label is taken: nothing may remain of it
+            outs = sim.chans("out", ct)
+            wire = None
+            if outs and rng.random() < 0.8:
+                ot, ol, _oc = rng.choice(outs)
+                wire = _mkref(sim.inst, ot, ol, "out")
+            bad = rng.random() < 0.5
+            kind = "T" if bad or rng.random() < 0.4 else rng.choice(["F", "G"])
+            free = [l for l in LABELS if l not in [c[0] for c in sim.children]]
+            label = rng.choice(free) if free and rng.random() < 0.9 else rng.choice(LABELS)
+            tag = sim.create(kind, label)
+            ops.append(["construct", kind, label, tag, wire, "type" if bad else None])
+            if not bad and label not in [c[0] for c in sim.children]:
+                sim.children.append((label, tag))
+                if wire:
+                    cin = _chan_ids(sim.inst, tag)[2 if kind == "T" else 0][2]
+                    cout = _ref(sim.inst, wire)[0]
+                    sim.conn[cin].add(cout)
+                    sim.conn[cout].add(cin)
+            else:
+                sim.dead.add(tag)
+        elif r < 0.991:
+            # an injected operation on a child's output whose own run raises (tuple/str + str)
+            outs = sim.chans("out", ct)
+            if outs:
+                ot, ol, _oc = rng.choice(outs)
+                ops.append(["inject", _mkref(sim.inst, ot, ol, "out")])
         else:
             if sim.children:
                 label, tag = rng.choice(sim.children)
                 kind = sim.inst[tag]["kind"]
+                if kind == "F" and rng.random() < 0.5:
+                    kind = "G"  # an upgrade with a channel the replaced child does not have
                 new = sim.create(kind, f"r{sim.n}")
                 ops.append(["replace", label, kind, new])
-                # bookkeeping: same label, new instance at the end; connections move over
-                old_ids = [c for _s, _l, c in _chan_ids(sim.inst, tag)]
-                new_ids = [c for _s, _l, c in _chan_ids(sim.inst, new)]
-                for o, n in zip(old_ids, new_ids):
+                # bookkeeping: same label, new instance at the end; connections move over (by panel and label)
+                newid = {(s_, l_): c for s_, l_, c in _chan_ids(sim.inst, new)}
+                pairs = [(c, newid[(s_, l_)]) for s_, l_, c in _chan_ids(sim.inst, tag) if (s_, l_) in newid]
+                for o, n in pairs:
                     sim.conn[n] = set(sim.conn[o])
                     for p in sim.conn[o]:
                         sim.conn[p].discard(o)
@@ -838,6 +878,23 @@ def _rerun_family():
                 yield {"ops": ops}
 
 
+def _replace_family():
+    """first, second -> third; `second` (kind F) is replaced by an instance with a label of its own — of the same
+    kind or an upgrade with the extra input `d` — under maps that mention the channel only the upgrade has: onto a
+    taken key (refused, nothing changes), onto a free name, hidden, keyed by the replacement's OWN label; then a run"""
+    maps = [None, {"second__d": "first__a"}, {"second__d": "offset"}, {"second__d": None}, {"second__d": "third__b"},
+            {"r_k9__d": "first__a"}, {"second__d": "first__a", "first__a": "x"}, {"second__a": "first__a"}]
+    for m in maps:
+        for kind in ("F", "G"):
+            for second_map in (None, {"second__d": "offset"}):
+                ops = [["add", "F", "first", "k0"], ["add", "F", "second", "k1"], ["add", "F", "third", "k2"],
+                       ["connect", "assign", "k2.a", "k1.o"], ["map", "in", m, "dict"], ["replace", "second", kind, "k9"],
+                       ["assign", "in", "second__b", 10], ["run", {}]]
+                if second_map is not None:
+                    ops += [["map", "in", second_map, "dict"], ["replace", "second", "G", "k10"], ["run", {}]]
+                yield {"ops": ops}
+
+
 def _load_family():
     """a -> b -> c with b in the `x = f(x); return x` idiom (same-named input and output): which links exist, a
     map over b's channels or not, which child is saved, edited and loaded back in place; then a run"""
@@ -859,6 +916,8 @@ def _load_family():
 
 def gen_cases(rng, tier):
     for c in _load_family():
+        yield c
+    for c in _replace_family():
         yield c
     rerun = list(_rerun_family())
     for c in (rng.sample(rerun, 60) if tier == "quick" else rerun):
@@ -948,6 +1007,11 @@ def corpus():
                    ["run", {}, ["k1"]], ["map", "out", {"n0__o": None}, "dict"], ["run", {"n1__a": 20}, ["k1"]],
                    ["run", {}]]}
 
+    # a node constructed straight into the workflow whose later keyword is refused after an earlier one wired it
+    # to a sibling, a failing injected operation, then a legal construction
+    yield {"ops": [["add", "F", "a", "k0"], ["add", "F", "b", "k1"], ["run", {}],
+                   ["construct", "T", "c", "k2", "k0.o", "type"], ["inject", "k1.o"], ["run", {"a__a": 4}],
+                   ["construct", "T", "a", "k3", "k0.o", None], ["construct", "G", "c", "k4", "k0.o", None], ["run", {}]]}
     # the same run again after the output map changed (assigned, then edited in place): the second run may be a
     # cache hit, its return value is the dictionary of the outputs as they are exposed now
     yield {"ops": [["add", "F", "n0", "k0"], ["add", "F", "n1", "k1"], ["connect", "assign", "k1.a", "k0.o"],
@@ -1086,7 +1150,8 @@ def run_impl(case):
 
     def create(kind, label, tag):
         n = nodes.term_node(inst[tag]["order"] % nodes.N_TERM, label=label) if kind == "F" \
-            else nodes.Typed(label=label) if kind == "T" else nodes_c15.Same(label=label)
+            else nodes.Typed(label=label) if kind == "T" else nodes_c15.Same(label=label) if kind == "S" \
+            else nodes_c15.TermG(label=label)
         node[tag] = n
         chs = [n.inputs[l] for l in KINDS[kind][0]] + [n.outputs[l] for l in KINDS[kind][1]]
         assert [l for l, _c in n.inputs.items()] == KINDS[kind][0], "layout drift"
@@ -1316,6 +1381,51 @@ def run_impl(case):
                     (wf.inputs if op[1] == "in" else wf.outputs)[op[2]] = _tup(op[3])
                 else:
                     setattr(wf.inputs if op[1] == "in" else wf.outputs, op[2], _tup(op[3]))
+            elif what == "construct":
+                kind, label, tag, wire, bad = op[1], op[2], op[3], op[4], op[5]
+                if tag in node:
+                    res = "skip"
+                else:
+                    cls = getattr(nodes, f"F{inst[tag]['order'] % nodes.N_TERM}") if kind == "F" else nodes.Typed \
+                        if kind == "T" else nodes_c15.Same if kind == "S" else nodes_c15.TermG
+                    kw = {}
+                    src = chan(wire) if wire else None
+                    if src is not None:
+                        kw["u" if kind == "T" else KINDS[kind][0][0]] = src  # the first keyword wires it
+                    if bad == "type" and kind == "T":
+                        kw["i"] = "bad"  # a later keyword the hint refuses
+                    n = None
+                    try:
+                        n = cls(label=label, parent=wf, **kw)
+                    except Exception as e:  # noqa: BLE001
+                        res = RES.get(type(e).__name__, "exc:" + type(e).__name__)
+                    assert len(obj) == inst[tag]["base"], "id drift"
+                    if n is not None:
+                        node[tag] = n
+                        for ch in [n.inputs[l] for l in KINDS[kind][0]] + [n.outputs[l] for l in KINDS[kind][1]]:
+                            index[id(ch)] = len(obj)
+                            obj.append(ch)
+                        info["wired"] = src is not None
+                    else:
+                        obj.extend([None] * _nchan(kind))
+                        info["stillborn"] = True
+            elif what == "inject":
+                src = chan(op[1])
+                if src is None or src.owner.parent is not wf:
+                    res = "skip"
+                else:
+                    try:
+                        src + "two"
+                    except Exception as e:  # noqa: BLE001
+                        res = RES.get(type(e).__name__, "exc:" + type(e).__name__)
+                    finally:
+                        known = {id(m) for m in node.values()}
+                        for lab, m in list(wf.children.items()):
+                            if id(m) not in known:
+                                wf.remove_child(m)  # an injected node that did come to be: take it out again
+                        for m in [wf, *node.values()]:
+                            m.failed = False
+                            m.running = False
             elif what == "setparent":
                 n = node.get(op[1])
                 if n is None or (op[2] in ("none", "other")) != (n.parent is wf):
@@ -1415,7 +1525,7 @@ def run_impl(case):
                 target = wf.children.get(op[1]) if hasattr(wf.children, "get") else None
                 if op[3] in node:
                     res = "skip"
-                elif target is not None and inst.get(tag_of.get(id(target), "?"), {}).get("kind") != op[2]:
+                elif target is not None and not _superset(inst.get(tag_of.get(id(target), "?"), {}).get("kind"), op[2]):
                     res = "skip"  # a replacement with other channel labels: C14's subject
                     create(op[2], f"r_{op[3]}", op[3])  # the node exists all the same (ids stay dense)
                     info["created"] = True
@@ -1529,7 +1639,7 @@ def model_input(case, impl=None):
                 created.add(op[3])
                 lines += _init_lines(inst, op[3])
                 lines.append("q " + _decl(inst, op[3], f"r_{op[3]}", "ext"))
-            if what == "load" and st["info"].get("stillborn"):
+            if what in ("load", "construct") and st["info"].get("stillborn"):
                 lines.append("q " + _decl(inst, op[3], f"dead_{op[3]}", "ext"))
             prev_vals = st["vals"]
             continue
@@ -1574,6 +1684,21 @@ def model_input(case, impl=None):
                 if op[1] or prev_vals is None or c >= len(prev_vals) or prev_vals[c] != v:
                     lines.append(f"q val {c} {v}")
             lines.append(f"run {res}")
+        elif what == "construct":
+            if st["info"].get("stillborn"):
+                lines.append("q " + _decl(inst, op[3], f"dead_{op[3]}", "ext"))
+                lines.append(f"echo {res}")  # a constructor that raised leaves nothing behind
+            else:
+                created.add(op[3])
+                lines += _init_lines(inst, op[3])
+                if st["info"].get("wired"):
+                    lines.append("q " + _decl(inst, op[3], op[2]))
+                    cin = _chan_ids(inst, op[3])[2 if op[1] == "T" else 0][2]
+                    lines.append(f"connect {cin} {_ref(inst, op[4])[0]}")
+                else:
+                    lines.append(_decl(inst, op[3], op[2]))
+        elif what == "inject":
+            lines.append(f"echo {res}")
         elif what == "setparent":
             if res != "ok":
                 lines.append(f"echo {res}")
@@ -1798,7 +1923,26 @@ def oracle(case, r):
         if op[0] == "replace" and res not in ("ok", "sync") and prev is not None \
                 and any(lab == op[1] for lab, _t in prev["children"]) \
                 and not isinstance(prev["panel"]["in"], str) and not isinstance(prev["panel"]["out"], str):
-            fails.append(_f("valid-replace-refused", k, op, f"{res} ({st['info'].get('exc')})"))
+            # ... unless the IO the replacement WOULD give (old label, old connections, its extra channels open,
+            # the maps as they are) has two channels under one key
+            old_tag = next(t for lab, t in prev["children"] if lab == op[1])
+            would = [(lab, op[3] if t == old_tag else t) for lab, t in prev["children"] if t in inst]
+            newid = {(s_, l_): c for s_, l_, c in _chan_ids(inst, op[3])}
+            pconn = {c: len(l) > 0 for c, l in enumerate(prev["conns"])}
+            for s_, l_, c in _chan_ids(inst, old_tag):
+                if (s_, l_) in newid:
+                    pconn[newid[(s_, l_)]] = pconn.get(c, False)
+            for c in newid.values():
+                pconn.setdefault(c, False)
+            clash = any(len(v) > 1 for side in ("in", "out")
+                        for v in _spec(would, inst, pconn, umap[side], side).values())
+            if not clash:
+                fails.append(_f("valid-replace-refused", k, op, f"{res} ({st['info'].get('exc')})"))
+        # a refused replacement / construction leaves the IO literally as it was
+        if op[0] in ("replace", "construct", "inject") and res not in ("ok", "sync", "skip") and prev is not None:
+            if st["children"] != prev["children"] or st["panel"] != prev["panel"]:
+                fails.append(_f("refused-edit-changed-io", k, op, f"{res}: children {prev['children']} -> "
+                                f"{st['children']}, panels {prev['panel']} -> {st['panel']}"))
 
         # ---- key set and identity of both panels, after every op
         expected = {}
